@@ -301,12 +301,10 @@ func (u *CopyOnWriteFs) Open(name string) (File, error) {
 }
 
 func (u *CopyOnWriteFs) Mkdir(name string, perm os.FileMode) error {
-	dir, err := IsDir(u.base, name)
-	if err != nil {
-		return u.layer.MkdirAll(name, perm)
-	}
-	if dir {
-		return ErrFileExists
+	// Mkdir (unlike MkdirAll) fails on a name the union already shows, in the overlay or in the base,
+	// as a directory or as a file.
+	if _, err := u.Stat(name); err == nil {
+		return &os.PathError{Op: "mkdir", Path: name, Err: ErrFileExists}
 	}
 	return u.layer.MkdirAll(name, perm)
 }
